@@ -46,6 +46,14 @@ CHECKS = {
          "Every double +-(1+j/2^m)*2^e for all exponents (normal and subnormal), m=4/7, plus boundaries (10^k neighbours for all k, 2^53/2^63 neighbours, subnormal limits, zeros, NaN, inf) built exactly from integers and powers of two: print->parse returns the identical number, text equals the model's, interpolation agrees; every literal digits[.digits] up to 5/6 characters equals the exactly constructed nearest double; every digit string up to 3 digits in each `.`-lookahead context (positive by construction, negative by expected compile error).",
          "Where two shortest digit strings round-trip, the printed text is not compared (tie-breaking is not fixed by the property). Long-literal nearestness relies on the host parser.",
          "5/C19"),
+ "C11": ("explicit-state breadth-first search over intern/probe sequences on the real intern table (canonical state = its slot array) + exhaustive producer-pair enumeration through the language",
+         "Level 1: BFS to depth 8/12 over 9/12 keys with designed hashes (low-bit collisions surviving 0/1/2 growths, an identical-full-hash pair, the empty string): every transition replayed on a fresh real table through the hook and compared with a reference map; in every state: no duplicate entry, size = occupied, power-of-two capacity, load <= 0.75, unbroken probe chains, every interned key present with the object first given. Level 2: producer pairs of each target string x filler counts: ==, map and tuple-key selection, one-byte-different strings distinct, host-created names.",
+         "Level 1 uses a feature-guarded wrapper mirroring new_gc_obj_string with caller-chosen hashes. The language has no computed field/method names; selection is exercised through maps, tuples, globals.",
+         "5/C11"),
+ "C12": ("explicit-state breadth-first search over HashMap operation sequences with reference M-map; every transition executed on the real map",
+         "BFS (<=3/4 live entries, depth 4/5) from the empty map and 12 literals over insert/remove with every key of a 25-key pool (1 vs 1.0, 0 vs -0, separately built equal tuples/strings/ranges, nested tuples, NaN, a class, 5 unhashables) and clear; from a rebuilt copy of every state every operation is executed and followed by a full order-independent dump; compared with M-eval's association-list map.",
+         "keys/values/items are compared through order-independent probes. An overwritten entry keeps the first-inserted key object.",
+         "5/C12"),
 }
 NOT_YET = "check not built yet in this revision of /verif (work in progress; see DESIGN.md section 10)"
 
